@@ -31,7 +31,7 @@ def jobs(tier, seed):
             for t in vs + ["r"]:
                 out.append({"kind": "term", "vars": vs, "source": s, "target": t})
     alphabet = [-2, -1, 1, 2]
-    n = 90 if tier == "quick" else 1200
+    n = 150 if tier == "quick" else 8000
     for i in range(n):
         ins, outs = rng.choice([(["x", "u"], ["y"]), (["x"], ["y", "z"]), (["x", "u"], ["y", "z"])])
         c = CS.rand_contract(rng, ins, outs, alphabet, na=(0, 1, 2), ng=(1, 2, 3))
@@ -49,7 +49,7 @@ def jobs(tier, seed):
             tgt = src
         out.append({"kind": "contract", "case": case, "c": c, "maps": [[src, tgt]], "via": rng.choice(["rename_variable", "rename_variables"])})
     # sequences: swap through a temporary, rename and back
-    n = 30 if tier == "quick" else 400
+    n = 50 if tier == "quick" else 2500
     for i in range(n):
         ins, outs = (["x", "u"], ["y", "z"])
         c = CS.rand_contract(rng, ins, outs, alphabet, na=(0, 1, 2), ng=(1, 2, 3))
